@@ -3,10 +3,12 @@
    the loop's send arm is enabled or a timer with a finite deadline is running - for every
    reachable state of both machines, and (2) every running timer reaches its limit after exactly
    max_count periods (C17), at which the configured handler cancels / abandons (C17 dispatch).
+   and (3) no spinning: after the timeout arm has run at some instant, the transaction is no longer
+   active, or has something to send, or its next deadline lies strictly in the future.
    The closed-form bound on the whole run (phase ranking over the two limit rounds) is not
    mechanised; it is exercised on model and code by the idle-drive runs of the correspondence. *)
 From CFDP Require Import Base.Prelude Model.Segments Model.Timer Model.TxTypes Model.Recv Model.Send
-  Proofs.TimerP Proofs.RecvInv Proofs.SendP.
+  Proofs.TimerP Proofs.RecvInv Proofs.SendP Proofs.NoSpinP.
 
 (* Receiver: the invariant "active => inactivity timer running" holds initially and is kept by
    every operation; hence an active receive transaction always has a finite next deadline. *)
@@ -32,6 +34,37 @@ Theorem C03_sender_never_stuck : forall now s, SL s -> s_state s = TActive ->
   s_has_pdu_to_send s = true \/ s_until_timeout now s <> None.
 Proof. exact send_never_stuck. Qed.
 
+
+(* No spinning, receiver. TW: every timer of the transaction (inactivity, ACK, NAK, the NAK delay
+   timers) has a positive period and the delay timers run; AP: while data is being received the
+   ACK timer is stopped. Both hold initially (positive configured timeouts) and are kept by every
+   operation; under them the timeout arm, run at any instant, leaves the transaction inactive, or
+   with something to send, or with every deadline strictly in the future - the defect repaired by
+   4ef52c0 (an expired NAK timer with nothing to request) was a violation of exactly this. *)
+Theorem C03_receiver_timers_invariant : forall FS fs_write_file fs_exec resp_fail not_performed cksum resp_len req_len
+  now o (s : rstate FS), TW FS s /\ AP FS s ->
+  TW FS (fst (rstep FS fs_write_file fs_exec resp_fail not_performed cksum resp_len req_len now o s)) /\
+  AP FS (fst (rstep FS fs_write_file fs_exec resp_fail not_performed cksum resp_len req_len now o s)).
+Proof. intros. destruct H as (A & B). split; [apply TW_rstep; exact A|apply AP_rstep; exact B]. Qed.
+Theorem C03_receiver_timers_initial : forall FS now cfg np (fs : FS),
+  0 < cfg_t_inact cfg -> 0 < cfg_t_ack cfg -> 0 < cfg_t_nak cfg ->
+  TW FS (r_new now cfg np fs) /\ AP FS (r_new now cfg np fs).
+Proof. intros. split; [apply TW_init; assumption|apply AP_init]. Qed.
+Theorem C03_receiver_no_spin : forall FS now (s : rstate FS), TW FS s -> AP FS s ->
+  let s' := handle_timeout now s in
+  r_state s' = TActive -> has_pdu_to_send s' = false -> forall x, until_timeout now s' = Some x -> 0 < x.
+Proof. exact recv_timeout_progress. Qed.
+
+(* No spinning, sender. ST: positive periods of the inactivity and ACK timers, NAK timer never started. *)
+Theorem C03_sender_timers_invariant : forall cksum resp_len req_len now o s, ST s -> ST (fst (sstep cksum resp_len req_len now o s)).
+Proof. exact ST_sstep. Qed.
+Theorem C03_sender_timers_initial : forall now cfg m file, 0 < cfg_t_inact cfg -> 0 < cfg_t_ack cfg -> ST (s_new now cfg m file).
+Proof. exact ST_init. Qed.
+Theorem C03_sender_no_spin : forall cksum now s, ST s ->
+  let s' := s_handle_timeout cksum now s in
+  s_state s' = TActive -> s_has_pdu_to_send s' = false -> forall x, s_until_timeout now s' = Some x -> 0 < x.
+Proof. exact send_timeout_progress. Qed.
+
 (* a running timer with a positive limit reaches it after exactly max_count periods *)
 Theorem C03_timer_limit_in_bounded_time : forall t0 now c, 0 < c_timeout c -> 0 < c_max c -> t0 <= now ->
   snd (c_limit_reached now (c_reset t0 c)) = (t0 + c_max c * c_timeout c <=? now).
@@ -50,3 +83,9 @@ Print Assumptions C03_sender_invariant.
 Print Assumptions C03_sender_initial.
 Print Assumptions C03_sender_never_stuck.
 Print Assumptions C03_timer_limit_in_bounded_time.
+Print Assumptions C03_receiver_timers_invariant.
+Print Assumptions C03_receiver_timers_initial.
+Print Assumptions C03_receiver_no_spin.
+Print Assumptions C03_sender_timers_invariant.
+Print Assumptions C03_sender_timers_initial.
+Print Assumptions C03_sender_no_spin.
